@@ -67,6 +67,21 @@ func c39Ref(lit string) (float64, bool, error) {
 	if !ok {
 		return 0, false, fmt.Errorf("bad mantissa %q", mant)
 	}
+	if abs(exp) > 4000 {
+		// far outside the float64 range: no big arithmetic needed (mantissas have < 100 digits)
+		zero := m.Sign() == 0 || exp < 0
+		f := math.Inf(1)
+		if zero {
+			f = 0
+		}
+		if neg {
+			f = -f
+			if zero {
+				f = math.Copysign(0, -1)
+			}
+		}
+		return f, m.Sign() == 0, nil
+	}
 	r := new(big.Rat).SetInt(m)
 	scale := func(b int64, e int) {
 		p := new(big.Int).Exp(big.NewInt(b), big.NewInt(int64(abs(e))), nil)
@@ -97,7 +112,19 @@ func abs(x int) int {
 
 func c39Check(c c39Case, r *ev.Rec) error {
 	// The property's domain is "numerals the lexer accepts": ask the lexer itself.
-	if _, _, ok := c39Lex(strings.TrimLeft(c.Lit, "+-")); !ok {
+	if c.Class == "extreme-exp" || c.Class == "hex-halfway" {
+		// hex-halfway: an integer hex mantissa with a signed binary exponent is in the grammar Decimal.Parse
+		// documents, but the lexer only glues a sign to an e/E exponent, so it never hands over a negative p
+		// exponent; these numerals exercise the subnormal rounding of the conversion directly.
+		// extreme-exp: |exponent| >= 997: the lexer's own acceptance test computes 5^|exp| exactly, which is impractical for
+		// the largest of these, so acceptance is taken from the grammar instead (same shapes the lexer accepts
+		// for small exponents); Parse reports out-of-range exponents as an error, which is not a conversion.
+		var d verifexport.Decimal
+		if _, err := d.Parse(c.Lit); err != nil {
+			r.Case(ev.HashStr(c.Lit), false, "parse-rejected-extreme", "class="+c.Class)
+			return nil
+		}
+	} else if _, _, ok := c39Lex(strings.TrimLeft(c.Lit, "+-")); !ok {
 		r.Case(ev.HashStr(c.Lit), false, "lexer-rejected", "class="+c.Class)
 		return nil
 	}
@@ -149,7 +176,7 @@ func c39Digits(t *rapid.T, lo, hi int, label string) string {
 }
 
 func c39Gen(t *rapid.T) c39Case {
-	class := rapid.SampledFrom([]string{"mant-exp", "mant-exp", "long-mant", "halfway", "halfway", "subnormal", "overflow", "hex", "hex", "pow10", "small-int"}).Draw(t, "class")
+	class := rapid.SampledFrom([]string{"mant-exp", "mant-exp", "long-mant", "halfway", "halfway", "subnormal", "overflow", "hex", "hex", "hex-halfway", "hex-halfway", "extreme-exp", "pow10", "small-int"}).Draw(t, "class")
 	sign := rapid.SampledFrom([]string{"", "", "-", "+"}).Draw(t, "sign")
 	var lit string
 	switch class {
@@ -221,6 +248,38 @@ func c39Gen(t *rapid.T) c39Case {
 		lit = "0x" + h
 		if rapid.Bool().Draw(t, "hasexp") {
 			lit += "p" + strconv.Itoa(rapid.IntRange(-1100, 1050).Draw(t, "exp"))
+		}
+	case "hex-halfway":
+		// a hex mantissa whose bits below the rounding position are 100..0 or 100..01, placed so that the
+		// rounding position is the last bit of a subnormal (or of a normal with a 53-bit mantissa)
+		kept := rapid.IntRange(1, 53).Draw(t, "kept")
+		sbits := rapid.IntRange(1, 30).Draw(t, "sbits")
+		m := new(big.Int).SetUint64(rapid.Uint64Range(1<<uint(kept-1), 1<<uint(kept)-1).Draw(t, "hi"))
+		m.Lsh(m, uint(sbits))
+		m.Or(m, new(big.Int).Lsh(big.NewInt(1), uint(sbits-1)))
+		switch rapid.IntRange(0, 2).Draw(t, "tailbit") {
+		case 1:
+			m.Or(m, big.NewInt(1))
+		case 2:
+			m.Sub(m, big.NewInt(1))
+		}
+		exp := -1074 - sbits
+		if kept == 53 && rapid.Bool().Draw(t, "normal") {
+			exp = rapid.IntRange(-1000, 900).Draw(t, "nexp") - sbits
+		}
+		lit = "0x" + m.Text(16) + "p" + strconv.Itoa(exp)
+	case "extreme-exp":
+		m := c39Digits(t, 1, 6, "m")
+		if rapid.Bool().Draw(t, "dot") && len(m) > 1 {
+			m = m[:1] + "." + m[1:]
+		}
+		mag := rapid.SampledFrom([]int{1000, 5000, 100000, 2147483000, 2147483647, 2147483648}).Draw(t, "mag") - rapid.IntRange(0, 3).Draw(t, "off")
+		if rapid.Bool().Draw(t, "negexp") {
+			mag = -mag
+		}
+		lit = m + "e" + strconv.Itoa(mag)
+		if rapid.IntRange(0, 4).Draw(t, "hexe") == 0 {
+			lit = "0x1." + rapid.StringMatching(`[0-9a-f]{1,4}`).Draw(t, "hx") + "p" + strconv.Itoa(mag)
 		}
 	case "pow10":
 		lit = "1e" + strconv.Itoa(rapid.IntRange(-330, 312).Draw(t, "exp"))
@@ -294,6 +353,10 @@ func c39Lex(lit string) (v float64, exact bool, accepted bool) {
 }
 
 func c39LexCheck(c c39Case, r *ev.Rec) error {
+	if c.Class == "extreme-exp" {
+		r.Case(ev.HashStr(c.Lit), false, "skipped-extreme-exp")
+		return nil
+	}
 	lit := strings.TrimLeft(c.Lit, "+-") // signs are separate tokens
 	got, exact, ok := c39Lex(lit)
 	if !ok {
